@@ -1,6 +1,6 @@
 #!/bin/bash
 # tools/goal.sh FILE LINE [COL]: show the proof state just before LINE (1-based) of coq/FILE
-cd /verif/coq
+cd "$(dirname "$0")/../coq"
 f=$1; n=$2
 tmp=$(dirname $f)/Zgoal_tmp.v
 head -n $((n-1)) $f > $tmp
